@@ -251,6 +251,8 @@ package cache
 //@ at call cache.(*eventProcessor).AddEvent requires arg1 == "update" ==> (calls("cache.(*RowCache).Update") == 1 && calls("cache.(*RowCache).Create") == 0 && calls("cache.(*RowCache).Delete") == 0 && arg3 == old && arg4 == new)
 //@ at call cache.(*eventProcessor).AddEvent requires arg1 == "delete" ==> (calls("cache.(*RowCache).Delete") == 1 && calls("cache.(*RowCache).Create") == 0 && calls("cache.(*RowCache).Update") == 0 && arg3 == old && arg4 == nil)
 //@ at call cache.(*eventProcessor).AddEvent requires arg1 == "add" || arg1 == "update" || arg1 == "delete"
+// an event describes a change that was applied: no event after a cache operation that failed
+//@ at call cache.(*eventProcessor).AddEvent requires fails("cache.(*RowCache).Create") == 0 && fails("cache.(*RowCache).Update") == 0 && fails("cache.(*RowCache).Delete") == 0
 //@ at call cache.(*RowCache).Create requires old == nil && new != nil && arg1 == uuid && arg2 == new
 //@ at call cache.(*RowCache).Update requires old != nil && new != nil && arg1 == uuid && arg2 == new
 //@ at call cache.(*RowCache).Delete requires new == nil && arg1 == uuid
